@@ -209,7 +209,7 @@ def udp_exchange(port, datagrams, expect=None, wait=1.5):
     out = []
     try:
         for i, dg in enumerate(datagrams):
-            if not dg:
+            if dg is None:
                 continue
             s.sendto(dg, (HOST, port))
             want = expect[i] if expect is not None else None
